@@ -1,14 +1,19 @@
 package rig
 
 import (
+	"bytes"
 	"context"
 	"fmt"
+	"github.com/b2broker/simplefix-go/fix"
+	"github.com/b2broker/simplefix-go/fix/encoding"
+	"strconv"
 	"strings"
 	"sync"
 	"sync/atomic"
 	"testing"
 	"testing/synctest"
 	"time"
+	"verif/harness/ref"
 
 	simplefixgo "github.com/b2broker/simplefix-go"
 	"github.com/b2broker/simplefix-go/session"
@@ -29,11 +34,14 @@ type Cfg struct {
 	CloseTimeoutMs int64    `json:"close_timeout_ms"`
 	Buf            int      `json:"buf"`
 	FailSaves      []int    `json:"fail_saves,omitempty"`
-	Location       string   `json:"location,omitempty"`        // session option Location (time zone of SendingTime); "" = the default (UTC)
-	PartitionStore bool     `json:"partition_store,omitempty"` // the message store keeps messages per (Sender, Target) of the StorageID it is given
-	CustomLogon    bool     `json:"custom_logon,omitempty"`    // initiator (direct rig): the application sets its own logon request with SetLogonRequest
-	CallbackHB     int      `json:"callback_hb,omitempty"`     // acceptor (direct rig): the application's logon callback sets the heartbeat interval to this many seconds (0: leaves it)
-	LogonCbNs      int64    `json:"logon_cb_ns,omitempty"`     // acceptor (full rig): virtual time the application's logon callback takes
+	FailNexts      []int    `json:"fail_nexts,omitempty"`       // 1-based indices of the counter store's outgoing GetNextSeqNum calls that fail
+	Location       string   `json:"location,omitempty"`         // session option Location (time zone of SendingTime); "" = the default (UTC)
+	PartitionStore bool     `json:"partition_store,omitempty"`  // the stores key everything by the StorageID they are given: messages per (Sender, Target), counters per (Sender, Target, Side)
+	Tolerant       bool     `json:"tolerant,omitempty"`         // the application configures its own unmarshaller (SetUnmarshaller): one that does not insist on the CheckSum value
+	LogonFailsOnce bool     `json:"logon_fails_once,omitempty"` // with CustomLogon: the application's logon request returns an error the first time; Session.Run is then called again
+	CustomLogon    bool     `json:"custom_logon,omitempty"`     // initiator (direct rig): the application sets its own logon request with SetLogonRequest
+	CallbackHB     int      `json:"callback_hb,omitempty"`      // acceptor (direct rig): the application's logon callback sets the heartbeat interval to this many seconds (0: leaves it)
+	LogonCbNs      int64    `json:"logon_cb_ns,omitempty"`      // acceptor (full rig): virtual time the application's logon callback takes
 	User           string   `json:"user,omitempty"`
 	Pass           string   `json:"pass,omitempty"`
 	Sender         string   `json:"sender,omitempty"` // initiator's identifiers
@@ -154,6 +162,34 @@ func NewApp(id string) messages.Message {
 	return m
 }
 
+// NewForwardedApp is an application message the application did not build itself: it was received
+// on another session (numbered 5700+k there, with that session's identifiers and an old sending time),
+// parsed with the library's decoder, and is now sent on through this session.
+func NewForwardedApp(id string, k int) messages.Message {
+	wire := ref.Assemble(ref.StdTags, "FIX.4.4", TMDReject, []ref.Tok{F(TagSenderCompID, "UPSTREAM"), F(TagTargetCompID, "HUB"),
+		F(TagMsgSeqNum, strconv.Itoa(5700+k)), F(TagSendingTime, "19991231-23:59:59.000"), F(TagMDReqID, id)})
+	m := fixgen.NewMarketDataRequestReject()
+	if err := encoding.Unmarshal(m, wire); err != nil {
+		panic("harness: cannot parse its own message: " + err.Error())
+	}
+	return m
+}
+
+// tolerantUnmarshaller is an application's own unmarshaller for peers that do not compute
+// CheckSums: it puts the right value in and hands the message to the library's default one.
+type tolerantUnmarshaller struct{}
+
+func (tolerantUnmarshaller) Unmarshal(msg messages.Builder, d []byte) error {
+	mark := []byte("\x0110=")
+	if i := bytes.LastIndex(d, mark); i >= 0 {
+		fixed := append([]byte{}, d[:i+len(mark)]...)
+		fixed = append(fixed, fix.CalcCheckSum(d[:i])...)
+		fixed = append(fixed, 1)
+		d = fixed
+	}
+	return encoding.Unmarshal(msg, d)
+}
+
 type directRig struct {
 	cfg   Cfg
 	h     *simplefixgo.DefaultHandler
@@ -236,6 +272,12 @@ func runDirect(cfg Cfg, steps []Step, hooks *Hooks, maxHB int, tr *Trace) {
 	r.store.Partition = cfg.PartitionStore
 	for _, k := range cfg.FailSaves {
 		r.store.FailSaves[k] = true
+	}
+	if len(cfg.FailNexts) > 0 {
+		r.store.FailNexts = map[int]bool{}
+		for _, k := range cfg.FailNexts {
+			r.store.FailNexts[k] = true
+		}
 	}
 	tr.Store = r.store
 
@@ -321,9 +363,13 @@ func runDirect(cfg Cfg, steps []Step, hooks *Hooks, maxHB int, tr *Trace) {
 		<-drainDone
 		return
 	}
+	if cfg.Tolerant {
+		r.s.SetUnmarshaller(tolerantUnmarshaller{})
+	}
 	if cfg.CustomLogon && cfg.Role == "initiator" {
 		// the application supplies its own logon request (the optional SetLogonRequest hook): the same
 		// fields as the built-in one plus ResetSeqNumFlag=N
+		logonTried := false
 		r.s.SetLogonRequest(func(s *session.Session) error {
 			msg := fixgen.Logon{}.Build().
 				SetFieldEncryptMethod(s.LogonSettings.EncryptMethod).
@@ -331,6 +377,10 @@ func runDirect(cfg Cfg, steps []Step, hooks *Hooks, maxHB int, tr *Trace) {
 				SetFieldPassword(s.LogonSettings.Password).
 				SetFieldUsername(s.LogonSettings.Username).
 				SetFieldResetSeqNumFlag(false)
+			if cfg.LogonFailsOnce && !logonTried {
+				logonTried = true
+				return fmt.Errorf("the application's logon request is not ready yet")
+			}
 			_ = s.Send(msg) // like the built-in request, which reports a failed send to the error callback only
 			return nil
 		})
@@ -364,7 +414,11 @@ func runDirect(cfg Cfg, steps []Step, hooks *Hooks, maxHB int, tr *Trace) {
 	}
 
 	start := r.log.Now()
-	if e := r.s.Run(); e != nil {
+	e := r.s.Run()
+	if e != nil && cfg.CustomLogon && cfg.LogonFailsOnce && cfg.Role == "initiator" {
+		e = r.s.Run() // the application's own logon request failed the first time: it tries again
+	}
+	if e != nil {
 		tr.Trouble = "Session.Run: " + e.Error()
 	}
 	for _, ev := range []struct {
